@@ -22,7 +22,7 @@ def write_cfg(name, text):
 def mc_pipeline(ck, alpha, n, workers=8):
     """Exhaustive MC_Pipeline run for one alphabet; TLC output is a pure function of the
     specification, so it is cached under work/ keyed by the specification's hash."""
-    hs = spec_hash(["YChars.tla", "YScanner.tla", "YParser.tla", "YEvents.tla", "MC_Pipeline.tla"])
+    hs = spec_hash(["YChars.tla", "YScanner.tla", "YParser.tla", "YEvents.tla", "YPos.tla", "MC_Pipeline.tla"])
     cdir = os.path.join(WORK, "cache")
     os.makedirs(cdir, exist_ok=True)
     out = os.path.join(cdir, "mcp_%s_%d_%s.out" % (alpha, n, hs))
@@ -31,7 +31,7 @@ def mc_pipeline(ck, alpha, n, workers=8):
         m = json.load(open(meta))
     else:
         cfg = "gen_MC_Pipeline_%s_%d" % (alpha, n)
-        write_cfg(cfg, 'CONSTANTS\n  N = %d\n  AlphaName = "%s"\nINIT Init\nNEXT Next\nINVARIANTS PanicFree Grammar Linear MarksInText Out\nCHECK_DEADLOCK FALSE\n' % (n, alpha))
+        write_cfg(cfg, 'CONSTANTS\n  N = %d\n  AlphaName = "%s"\nINIT Init\nNEXT Next\nINVARIANTS PanicFree Grammar Linear MarksInText PosTrue Out\nCHECK_DEADLOCK FALSE\n' % (n, alpha))
         tmp = out + ".tmp"
         r = tlc("MC_Pipeline", cfg=cfg, workers=workers, out_path=tmp, name="mcp_%s_%d" % (alpha, n), timeout=7200, xmx="8g")
         os.remove(os.path.join(SPEC, cfg + ".cfg"))
